@@ -193,6 +193,12 @@ def h_data(ctx):
     seed = core.seed()
     via = ctx.params["via"]
     ai = dataset(seed)
+    if ctx.params.get("tie"):
+        # members exactly equal to a decimal threshold that single precision cannot hold (0.3): "at or below the threshold" counts them,
+        # whatever precision the members are copied to on the way
+        for idx, pos in enumerate(ai.positions()):
+            if idx % 3 == 0:
+                ai.fields["e1"][pos] = 0.3
     # deviations: missing cells
     for f in ctx.params["missfields"]:
         for pos in ai.positions():
@@ -493,11 +499,11 @@ def h_quant(ctx):
 
 def plan(tier):
     q = tier == "quick"
-    thr = [[1.0, 3.0], [2.0], [1.5, 2.5], [1.0], [3.0], [0.1]]      # 0.1: stored, but not exactly representable in the NetCDF file's float32
+    thr = [[1.0, 3.0], [2.0], [1.5, 2.5], [1.0], [3.0], [0.1], [0.3]]      # 0.1: stored, but not exactly representable in the NetCDF file's float32; 0.3: not stored, ties with members (data-mem)
     return [("formulas", h_formulas, {"maxlen": 3 if q else 4}, "full", None),
-            ("data-mem", h_data, {"via": "mem", "missfields": ["obs", "p1", "e0", "e2"], "thresholds": thr, "axes": ["no", "leadtime"], "agg": True}, "dev", 2),
-            ("data-text", h_data, {"via": "text", "missfields": ["p3", "e1"], "thresholds": thr[:3] + thr[5:], "axes": ["no", "location"]}, "dev", 1),
-            ("data-nc", h_data, {"via": "nc", "missfields": ["e0"], "thresholds": thr[:3] + thr[5:], "axes": ["no"]}, "dev", 1),
+            ("data-mem", h_data, {"via": "mem", "missfields": ["obs", "p1", "e0", "e2"], "thresholds": thr, "axes": ["no", "leadtime"], "agg": True, "tie": True}, "dev", 2),
+            ("data-text", h_data, {"via": "text", "missfields": ["p3", "e1"], "thresholds": thr[:3] + thr[5:6], "axes": ["no", "location"]}, "dev", 1),
+            ("data-nc", h_data, {"via": "nc", "missfields": ["e0"], "thresholds": thr[:3] + thr[5:6], "axes": ["no"]}, "dev", 1),
             ("quant-mem", h_quant, {"via": "mem", "missfields": ["obs", "q0.1", "e1", "pit"], "axes": ["no", "leadtime"]}, "dev", 1 if q else 2),
             ("quant-text", h_quant, {"via": "text", "missfields": ["q0.9", "e2"], "axes": ["no", "location"]}, "dev", 1),
             ("hetero", h_hetero, {}, "full", None)]
